@@ -91,4 +91,34 @@ theorem scatSlabNoOffset_not_isAdj :
   simp [Op.scatSlabNoOffset, slabScatter, slabGatherNoOffset, scatterAddDrop, gatherAt, clampIdx, ip_eq, sumTo_eq,
     Finset.sum_range_succ, basis] at this
 
+/-! ### the back-projector as coded since e359064 (fill-0 gather) -/
+
+omit [StarRing K] in
+theorem slabGatherFill_eq (B ny : Nat) (I : Nat → Nat) (w y : V K) :
+    slabGatherFill B ny I w y = gatherFill0 ny I w y := by
+  funext p
+  have e : p / B * B + p % B = p := by rw [Nat.mul_comm]; exact Nat.div_add_mod p B
+  simp [slabGatherFill, gatherFill0, e]
+
+omit [StarRing K] in
+theorem scatSlabFill_eq_scatFill (B nslab np ny : Nat) (h : np ≤ nslab * B) (I : Nat → Nat) (w : V K) :
+    Op.scatSlabFill B nslab np ny I w = Op.scatFill np ny I w := by
+  unfold Op.scatSlabFill Op.scatFill
+  congr 1
+  · funext x; exact slabScatter_eq B nslab np ny h I w x
+  · funext y; exact slabGatherFill_eq B ny I w y
+
+/-- the slab-coded projector term is an adjoint pair for ALL index arrays -/
+theorem scatSlabFill_isAdj (B nslab np ny : Nat) (h : np ≤ nslab * B) (I : Nat → Nat) (w : V K)
+    (hw : ∀ p, star (w p) = w p) : IsAdj (Op.scatSlabFill B nslab np ny I w) := by
+  rw [scatSlabFill_eq_scatFill B nslab np ny h]
+  exact scatFill_isAdj np ny I w hw
+
+theorem scatSlabFillNoOffset_not_isAdj :
+    ¬ IsAdj (Op.scatSlabFillNoOffset 1 2 2 2 (fun p => p) (fun _ => (1 : K))) := by
+  intro h
+  have := h (basis 1) (basis 1)
+  simp [Op.scatSlabFillNoOffset, slabScatter, slabGatherFillNoOffset, scatterAddDrop, gatherFill0, ip_eq, sumTo_eq,
+    Finset.sum_range_succ, basis] at this
+
 end Scico.Adjoint
